@@ -285,10 +285,11 @@ func oracle(c Case, ctx *pbt.Ctx) error {
 
 func gen(t *rapid.T) Case {
 	prof := mini.Control
-	prof.Makers, prof.ClosureBias = true, 2
+	prof.Makers, prof.ClosureBias, prof.Generators = true, 2, true
 	prof.NoExitFromCatchWithFinally, prof.NoCatchInsideHandler = true, true // C14's recorded findings are not this check's business
 	if rapid.Bool().Draw(t, "closurey") {
 		prof = mini.ClosureP
+		prof.Generators = true
 	}
 	c := Case{Prog: mini.Gen(t, prof)}
 	if vgen.Pick(t, 4, "break") == 0 {
